@@ -6,34 +6,12 @@
 (* family to its end, checking the invariants of TwEval in every state,    *)
 (* and prints one replayable record per program at its terminal state.     *)
 (***************************************************************************)
-EXTENDS TwEval, Json
+EXTENDS TwUnparse, Json
 
 CONSTANTS Family, Emit_
 
 VARIABLES cas        \* the case: [p |-> program, d |-> data bindings, tags]
 vars == <<evars, cas>>
-
-(* ------------------------------ unparsing ------------------------------ *)
-Ex(e) == Source(e, "sp")
-RECURSIVE Src(_)
-RECURSIVE SrcSeq(_)
-SrcSeq(ss) == IF ss = <<>> THEN "" ELSE Src(ss[1]) \o SrcSeq(Tail(ss))
-RECURSIVE SrcAlts(_, _)
-SrcAlts(cs, i) == IF i > Len(cs) THEN ""
-                  ELSE "@elseif(" \o Ex(cs[i].c) \o ")" \o SrcSeq(cs[i].body) \o SrcAlts(cs, i + 1)
-ElseSrc(s) == IF HasElse(s) THEN "@else" \o SrcSeq(s.els) ELSE ""
-Src(s) ==
-  CASE s.k = "html" -> s.s
-    [] s.k = "print" -> "{{ " \o Ex(s.e) \o " }}"
-    [] s.k = "assign" -> "{{ " \o s.n \o " = " \o Ex(s.e) \o " }}"
-    [] s.k = "if" -> "@if(" \o Ex(s.cs[1].c) \o ")" \o SrcSeq(s.cs[1].body) \o SrcAlts(s.cs, 2) \o ElseSrc(s) \o "@end"
-    [] s.k = "each" -> "@each(" \o s.var \o " in " \o Ex(s.arr) \o ")" \o SrcSeq(s.body) \o ElseSrc(s) \o "@end"
-    [] s.k = "for" -> "@for(" \o s.init.n \o " = " \o Ex(s.init.e) \o "; " \o Ex(s.cond) \o "; " \o Ex(s.post) \o ")"
-                      \o SrcSeq(s.body) \o ElseSrc(s) \o "@end"
-    [] s.k = "break" -> "@break"
-    [] s.k = "continue" -> "@continue"
-    [] s.k = "breakif" -> "@breakIf(" \o Ex(s.c) \o ")"
-    [] s.k = "continueif" -> "@continueIf(" \o Ex(s.c) \o ")"
 
 H(s) == Html(s, 1)
 P(e) == PrintS(e, 1)
